@@ -25,7 +25,8 @@ DONE = {
         text=("PSOps.tla (PLRM semantics of the data operators with exact 64-bit integers, correctly rounded reals, "
               "aliasing heap) is enumerated by TLC over every operator x operand tuple of a typed pool; every behaviour is "
               "replayed into the real interpreter and final stacks, dictionaries, reachable heap graph or error name are "
-              "compared. Bounded-exhaustive over the pool, not a proof."),
+              "compared; families of short programs add dictionary literals, creating operators executed twice around a "
+              "change (nothing is handed out twice) and fed random programs. Bounded-exhaustive over the pool, not a proof."),
         ref="6.1, 11 C02", tech=TECH_MBT),
     "C03": dict(
         text=("PSMachine.tla (small-step machine with continuation stack) is run by TLC on every program of a control-flow "
@@ -50,8 +51,8 @@ DONE = {
     "C06": dict(
         text=("T1Charstring.tla is the Type 1 BuildChar machine with exact rationals; MC_T1Font assembles model fonts "
               "(every charstring command incl. flex after move/line/curve, div, subroutines, hint replacement, sbw, stem3, "
-              "seac composites; every container x lenIV x RD/-| names x number encoding x encoding form; FontInfo / Private "
-              "variants with defaults; date layouts) and prescribes the font a reader must return; an independent writer "
+              "seac composites; every container x lenIV x RD/-| names x number encoding x encoding form x line ends LF / CR / CR LF, "
+              "an encrypted portion beyond 64 KiB; FontInfo / Private variants with defaults; date layouts x line ends) and prescribes the font a reader must return; an independent writer "
               "in the harness (own ciphers, checked against Eexec.tla) serialises them and type1.Read is compared field by "
               "field. Bounded-exhaustive over the grammar, not a proof."),
         ref="6.5, 10, 11 C06", tech=TECH_MBT),
@@ -65,8 +66,8 @@ DONE = {
         text=("PFB.tla states the decoding contract (Decode, fill-the-buffer reads, error classes); PFBImpl.tla is the "
               "five-state machine of the decoder with in-place expansion and parked nibble, checked by TLC as a refinement of "
               "PFB.tla for all segment sequences, caller buffer-size sequences and underlying short-read patterns within "
-              "bounds; MBT vectors (exhaustive small, simulated large, all 65536 header byte pairs) are replayed against "
-              "pfb.Decode and recorded per-Read traces are validated by TLC (TracePFB)."),
+              "bounds; MBT vectors (exhaustive small incl. a Read with an empty buffer, simulated large, all 65536 header byte "
+              "pairs, described segments of 64 KiB and 16 MiB) are replayed against pfb.Decode and recorded per-Read traces are validated by TLC (TracePFB)."),
         ref="6.9, 11 C14", tech="explicit TLA+ specification + refinement check with TLC, model-based test replay and trace validation"),
     "C08": dict(
         text=("Font.Write (4 formats) and WritePDF outputs are taken apart by an independent decoder in the harness (PFB "
